@@ -328,8 +328,12 @@ class Interp:
             c = self.cond(s[1])
             k = {'after': 1, 'moment': 2, 'before': 3, 'eternity': 4, 'instant': 5}.get(s[1][0], 9)
             from usim._primitives.timing import Delay
+            kept = getattr(self, 'named_defs', {}).get(s[1][1]) if s[1][0] == 'ref' else None
             if isinstance(c, Delay) and s[1][0] == 'ref':
                 self.emit(label, 'abegin', [0] + tpair(c.duration, self.kind))      # (a kept `time + d` object: a delay from now)
+            elif kept is not None and kept[0] in ('after', 'moment', 'before'):
+                # (a kept `time >= d` / `time == d` / `time < d` object: judged like the expression itself)
+                self.emit(label, 'abegin', [{'after': 1, 'moment': 2, 'before': 3}[kept[0]]] + tpair(kept[1], self.kind))
             else:
                 self.emit(label, 'abegin', [k] + (tpair(s[1][1], self.kind) if k in (1, 2, 3) else [0, 1]))
             self.pending_awaits[label] = self.pending_awaits.get(label, []) + [c]
